@@ -95,6 +95,9 @@ def run_tlc(
     import uuid
     meta = wd / ("meta_" + module + "_" + uuid.uuid4().hex[:12])
     cmd = ["java", "-XX:+UseSerialGC" if str(workers) == "1" else "-XX:+UseParallelGC", f"-Xmx{heap}"]
+    if str(workers) == "1":
+        # single-worker runs are the (many, short) trace validators: C1 only and two compiler threads - less JIT work per JVM
+        cmd += ["-XX:TieredStopAtLevel=1", "-XX:CICompilerCount=1"]
     if stack:
         cmd.append(f"-Xss{stack}")
     if deque:
